@@ -151,6 +151,14 @@ def run(sim):
                               lambda: "after-trigger %d ran while during-trigger %r had not run" % (tid, first_tracked(m, "during")))
                 sim.check("registration-order", first_tracked(m, phase) == tid, phase,
                           lambda: "%s-trigger %d ran, oldest remaining is %r" % (phase, tid, first_tracked(m, phase)))
+        elif tid in m.lists[phase]:
+            # a trigger registered while this firing was under way: the statement does not say whether it takes part in this
+            # firing, but if it does it is still subject to "in registration order": it must not overtake a trigger of its
+            # phase that was registered before it and has not run yet
+            sim.probe("late_trigger_ran_in_same_firing")
+            ahead = m.lists[phase][:m.lists[phase].index(tid)]
+            sim.check("registration-order", not ahead, phase + ":registered-during-firing",
+                      lambda: "%s-trigger %d (registered during this firing) ran before earlier-registered %s-trigger(s) %r" % (phase, tid, phase, ahead))
         if tid in m.lists[phase]:
             m.lists[phase].remove(tid)
         # ---- behaviour
